@@ -88,18 +88,20 @@ def translate(ctx):
 
 
 def search(ctx, broken):
-    """When only the static inventory broke: run the thorough generators of the families whose targets touch the
-    offending files, looking for a dynamic witness."""
+    """Only the static inventory broke (an in-place write on a non-fresh object that is not on the allow-list) and the
+    regular histories found nothing: draw further histories, first for the targets whose source file is named by an
+    offending site, looking for a dynamic witness (a failing input of the property)."""
     if not _BAD_SITES:
         return
     text = ' '.join(str(s) for s in _BAD_SITES).lower()
     rng = random.Random(ctx.seed + 1)
-    for fam in FAMILIES:
-        cases = fam.gen(rng, 'quick')
-        hot = [c for c in cases if c['target'].split(':')[0].lower() in text] or cases[: max(10, len(cases) // 4)]
-        ctx.run_family(fam, hot[:150])
-        if any(p['kind'] == 'property' for p in ctx.problems):
-            return
+    for rnd in range(3):
+        for fam in FAMILIES:
+            cases = fam.gen(rng, 'quick')
+            hot = [c for c in cases if str(c.get('cfg', {}).get('which') or c['target']).split(':')[0].lower() in text]
+            ctx.run_family(fam, (hot or cases[: max(8, len(cases) // 4)])[:120])
+            if any(p['kind'] == 'property' for p in ctx.problems):
+                return
 
 
 # ------------------------------------------------------------------------------------------------
@@ -451,9 +453,8 @@ def run_history(case, history, fresh_check=True):
 
     for i, call in enumerate(history):
         tag = f'c{i}'
-        n_before = len(reg.tensors)
-        # arguments are created by the target's run(); to snapshot them *before* the call the run functions are
-        # split in two phases through ctx['_prepare']: run(..) is called with a hook that fires after argument creation.
+        # the arguments are created inside the target's run(); it fires ctx['_hook'] after creating (and registering) them
+        # and immediately before calling into mrpro, which is when the 'before' snapshots are taken.
         state = {}
 
         def hook():
@@ -529,7 +530,6 @@ def run_history(case, history, fresh_check=True):
             earlier.append((i, call['call'], res))
             if len(earlier) > 3:
                 earlier.pop(0)
-        del n_before
     return {'problems': problems, 'skipped': skipped, 'notes': notes[:5], 'shared_outputs': shared, 'n_calls': len(history)}
 
 
@@ -591,7 +591,8 @@ def descr(case):
                 kinds.add(v['kind'])
             if 'form' in v:
                 kinds.add('sigma:' + v['form'])
-    return {'target': case['target'], 'object': case['target'].split(':')[0], 'dtype': case['dtype'],
+    return {'target': case['target'], 'object': case.get('cfg', {}).get('which') or case['target'].split(':')[0],
+            'wrap': case.get('cfg', {}).get('wrap', 'none'), 'dtype': case['dtype'],
             'calls': sorted({c['call'] for c in case['history']}), 'arg_kinds': sorted(kinds),
             'cfg': case.get('cfg', {})}
 
